@@ -217,7 +217,6 @@ int radudpget(int s, struct client **client, struct server **server, unsigned ch
                 removeudpclientfromreplyq(c);
                 c->replyq = NULL; /* stop removeclient() from removing common udp replyq */
                 removelockedclient(c);
-                break;
             }
             if (!*client) {
                 fromcopy = addr_copy((struct sockaddr *)&from);
